@@ -10,7 +10,7 @@ def cfg_opts(cfgname):
         m = re.search(r'^\s*%s\s*=\s*(\S+)' % k, t, re.M)
         return m.group(1) if m else d
     return dict(conc=int(g('Conc', '1')), push=(g('AllowPush', 'FALSE') == 'TRUE'),
-                recvUnblocks=(g('RecvUnblocks', 'FALSE') == 'TRUE'))
+                recvUnblocks=(g('RecvUnblocks', 'FALSE') == 'TRUE'), basectx=('"baseend"' in t))
 
 def tag(src):
     return 'm%d.%d' % (src[0], src[1])
@@ -49,6 +49,7 @@ def convert(beh, rng, name, opts, steer=True):
         elif act == 'DeliverS': steps.append(dict(a='gate', site='srv.deliver.lock', tag=tag(a[0]), soft=True))
         elif act == 'Stop': steps.append(dict(a='stop'))
         elif act == 'CancelRequest': steps.append(dict(a='cancel', id=str(a[0])))
+        elif act == 'BaseCtxEnd': steps.append(dict(a='baseend'))
         elif act == 'PushNotify': steps.append(dict(a='notify', **({'from': 'auto'} if rng.random() < 0.5 else {})))
         elif act == 'PushCall': steps.append(dict(a='callback', c=a[0], **({'from': 'auto', 'async': bool(steer)} if rng.random() < 0.5 else {})))
         elif act == 'CbCtxEnd': steps.append(dict(a='ctxend', c=a[0]))
@@ -109,6 +110,20 @@ def directed(rng):
         # malformed input answered directly by the reader while a reply is about to be delivered / the server is stopped
         add('direrr-vs-deliver-%d' % v, {}, [S(call(1)), D, dict(a='send', kind=['garbage', 'empty', 'garbage'][v]), hret('m1.1'), dict(a='probe'), D])
         add('direrr-vs-stop-%d' % v, {'push': True}, [S(call(1)), D, dict(a='send', kind='garbage'), dict(a='probe'), D, hret('m1.1'), D])
+        # a call cancelled while every slot is taken (in the semaphore queue or on its way there) never runs, also
+        # after a slot becomes free; its siblings and later calls are unaffected (C06, C07)
+        add('cancel-waiter-%d' % v, {'conc': 1}, [S(call(1)), D, S(call(2)), D, dict(a='cancel', id='2'), D, hret('m1.1', OUTS_ERR[v]), D, S(call(2)), D, hret('m3.1'), D])
+        add('cancel-waiter-batch-%d' % v, {'conc': 1 + v % 2}, [S(call(1), call(2), call(3)), D, dict(a='cancel', id='3'), D, hret('m1.1'), D, hret('m1.2'), D])
+        add('cancel-waiter-gate-%d' % v, {'conc': 1}, [S(call(1)), D, S(call(2)), dict(a='gate', site='srv.read.lock'), dict(a='gate', site='srv.next.lock', soft=True),
+                                                       dict(a='gate', site='srv.barrier.wait'), dict(a='cancel', id='2'), D, hret('m1.1'), D])
+        # the base context (ServerOptions.NewContext) ends: running calls see it, waiting ones never run, later ones are refused
+        add('baseend-%d' % v, {'conc': 1 + v % 2, 'basectx': True}, [S(call(1)), D, S(call(2), call(3)), D, dict(a='baseend'), D, hret('m1.1', 'ctxerr'), D,
+                                                                    S(call(1)), D])
+        # the barrier and the limit at every concurrency setting: both messages are in before anything is released,
+        # so the drain chooses which goroutine reaches the semaphore first
+        for conc in (1, 2, 3):
+            add('note-then-call-c%d-%d' % (conc, v), {'conc': conc}, [S(note()), S(call(1)), D, hret('m1.1'), D, hret('m2.1'), D])
+            add('note-then-note-c%d-%d' % (conc, v), {'conc': conc}, [S(note()), S(note()), S(call(1), call(2)), D, hret('m1.1'), D, hret('m2.1'), D, hret('m3.1'), hret('m3.2'), D])
         # F2/F3: records after Stop
         add('f2-%d' % v, {}, [dict(a='stop'), D, dict(a='send', kind='garbage'), D])
         add('f2e-%d' % v, {}, [dict(a='stop'), D, dict(a='send', kind='empty'), D])
@@ -157,9 +172,9 @@ def directed(rng):
 FAMILY = {
     # property: (quick design cfgs, thorough design cfgs, simulate cfgs, depth)
     'C01': (['srv_c01'], ['srv_c01', 'srv_c03'], ['srv_c01', 'srv_c07', 'srv_c09'], 45),
-    'C03': (['srv_c03q'], ['srv_c03'], ['srv_c03', 'srv_c06'], 45),
-    'C06': (['srv_c06'], ['srv_c06', 'srv_c03'], ['srv_c06', 'srv_c03'], 45),
-    'C07': (['srv_c07q'], ['srv_c07', 'srv_c03'], ['srv_c07', 'srv_c06'], 45),
+    'C03': (['srv_c03q'], ['srv_c03', 'srv_c03c1'], ['srv_c03', 'srv_c06', 'srv_c03c1', 'srv_c06c3'], 45),
+    'C06': (['srv_c06'], ['srv_c06', 'srv_c03', 'srv_c07b', 'srv_c06c3'], ['srv_c06', 'srv_c03', 'srv_c07b', 'srv_c06c3', 'srv_c03c1'], 45),
+    'C07': (['srv_c07q'], ['srv_c07', 'srv_c03', 'srv_c07b'], ['srv_c07', 'srv_c06', 'srv_c07b'], 45),
     'C08': (['srv_c08q', 'srv_live'], ['srv_c08', 'srv_c08u', 'srv_live'], ['srv_c08', 'srv_c08u', 'srv_c08r'], 50),
     'C09': (['srv_c09'], ['srv_c09', 'srv_c09b', 'srv_c09r'], ['srv_c09', 'srv_c09b', 'srv_c09r'], 45),
 }
@@ -195,7 +210,9 @@ def gen_scenarios(prop, tier, seed, nsim):
     rng = random.Random(seed * 7919 + zlib.crc32(prop.encode()) % 1000)
     _, _, simcfgs, depth = FAMILY[prop]
     if tier != 'quick':
-        simcfgs = simcfgs + ['srv_all']     # every feature at once (simulation only): cross-feature behaviours
+        # every feature at once (simulation only): cross-feature behaviours; the ending of the base context
+        # (ServerOptions.NewContext) only where it is judged (C06, C07: its effect on notifications is a grey zone of C01/C08)
+        simcfgs = simcfgs + (['srv_all', 'srv_allb'] if prop in ('C06', 'C07') else ['srv_all'])
     scs = []
     for ci, cfg in enumerate(simcfgs):
         opts = cfg_opts(cfg)
